@@ -110,7 +110,7 @@ EXCEPTIONS = [
          reason="last_idx is 0 or an earlier match index, idx is a later match index of the same string: both are char boundaries with last_idx <= idx <= len"),
     dict(fn="utils::split_path", what="index", desc="arg1[RangeFrom{start:var:usize}]", count=1,
          reason="last_idx is 0 or a match index (< len, char boundary)"),
-    dict(fn="utils::find_common_prefix_of_sorted_vec", what="index", desc="arg1[0][RangeToInclusive{end:try(var:Option<usize>)}]", count=1,
+    dict(fn="utils::find_common_prefix_of_sorted_vec", what="index", desc="arg1[0][RangeToInclusive{end:*}]", count=1,
          reason="max_idx is an enumerate() index over `shortest` = items[0] (the slice being indexed)"),
     dict(fn="utils::greatest_lower_bound", what="Bounds", desc="PtrMetadata(arg1)[try(Iterator::next(var:Rev<Range<usize>>))]", count=1,
          reason="i ranges over 0..idx where idx is the Ok index of binary_search (< len)", requires=["C04.R4"]),
@@ -132,8 +132,8 @@ EXCEPTIONS = [
     dict(fn="ram_bundle::IndexedRamBundle::<'a>::get_module", what="Overflow:Add:usize", desc="arg1.startup_code_offset,cast<usize>(*.offset)", count=1,
          reason="startup_code_offset = 12 + 8 * module_count <= 2^35 + 12 (parse, C20.R3) plus a widened u32: far below 2^64", requires=["C20.R3"]),
     # ---- C19 only --------------------------------------------------------------------------------------------------------
-    dict(fn="utils::make_relative_path", what="Overflow:Sub:usize", desc="Vec::len(var:Vec<&str>),Option::unwrap_or(Option::map(utils::find_common_prefix_of_sorted_vec(*),\u03bb(slice::len(p1))),0)", count=1,
+    dict(fn="utils::make_relative_path", what="Overflow:Sub:usize", desc="Vec::len(var:Vec<&str>),Option::map_or(utils::find_common_prefix_of_sorted_vec(*),0,\u03bb(slice::len(p1)))", count=1,
          reason="prefix is the length of a common prefix of the two component lists, hence <= base_path.len() (helper returns a prefix of the shortest list)", requires=["C19.R2"]),
-    dict(fn="utils::make_relative_path", what="index", desc="Iterator::collect(*)[RangeFrom{start:Option::unwrap_or(Option::map(utils::find_common_prefix_of_sorted_vec(*),\u03bb(slice::len(p1))),0)}]", count=1,
+    dict(fn="utils::make_relative_path", what="index", desc="Iterator::collect(*)[RangeFrom{start:Option::map_or(utils::find_common_prefix_of_sorted_vec(*),0,\u03bb(slice::len(p1)))}]", count=1,
          reason="prefix <= target_path.len() for the same reason", requires=["C19.R2"]),
 ]
